@@ -6,6 +6,7 @@ import Qentem.Proofs.StrToNumSign
 import Qentem.Proofs.StrToNumMalformed
 import Qentem.Proofs.StrToNumPaths
 import Qentem.Proofs.StrToNumSafe
+import Qentem.Proofs.StrToNumClosed
 /-! C09 — text to number: integers exact, reals within one ulp, out-of-range rejected. -/
 namespace Qentem.Props.C09
 open Qentem.StrToNum Qentem.Round Qentem.Generated.StrToNum
@@ -312,5 +313,67 @@ theorem strToNum_offset_bounds (c : List Nat) (o e : Nat) (r : Res) (hc : e ≤ 
 
 /-- the followers a JSON value can have (white space `, ] }`) all end an integer numeral -/
 example : [32, 9, 10, 13, 44, 93, 125].all (fun x => !contInt x && !contReal x && !contZero x) = true := by decide
+
+
+/-! ### The scaling pipeline equals a closed form (`bigint_steps_exact`)
+
+For a 64-bit mantissa the 256-bit `BigInt` of both `powerOf…Ten` functions never overflows (the
+model's `% 2^256` never fires, so the `Nat` abstraction of `BigInt` is faithful) and its value
+before normalisation is: negative exponent — `negIter r₂₇ (x/27) (num·2^64)` (iterated
+`b ↦ ⌊b·r/2^64⌋`), then once more with `r_{x mod 27}`; positive exponent — `posIter 5^27 (x/27)`
+(multiply, divide by `2^64` when `≥ 2^192`), then times `5^(x mod 27)`. -/
+theorem bigint_steps_exact (num x : Nat) (hn : num < 2 ^ 64) :
+    (∃ r27 s27, powerOfOneOverFive[27]? = some r27 ∧ powerOfOneOverFiveShift[27]? = some s27 ∧
+      ((x % 27 = 0 ∧ negScale num x = some (negIter r27 (x / 27) (num * 2 ^ 64), (add32 x 64 + x / 27 * s27) % 2 ^ 32)) ∨
+       (x % 27 ≠ 0 ∧ ∃ rj sj, powerOfOneOverFive[x % 27]? = some rj ∧ powerOfOneOverFiveShift[x % 27]? = some sj ∧
+          negScale num x = some (negIter r27 (x / 27) (num * 2 ^ 64) * rj / 2 ^ 64,
+            add32 ((add32 x 64 + x / 27 * s27) % 2 ^ 32) sj)))) ∧
+    (∃ p27, powerOfFive[27]? = some p27 ∧
+      ((x % 27 = 0 ∧ posScale num x = some (posIter p27 (x / 27) num x)) ∨
+       (x % 27 ≠ 0 ∧ ∃ pj, powerOfFive[x % 27]? = some pj ∧
+          posScale num x = some ((posIter p27 (x / 27) num x).1 * pj, (posIter p27 (x / 27) num x).2) ∧
+          (posIter p27 (x / 27) num x).1 * pj < 2 ^ 255))) :=
+  ⟨negScale_closed num x hn, posScale_closed num x hn⟩
+
+example : negScale 1 5 = some (12089258196146291748, 80) := by decide
+example : posScale 3 30 = some (3 * 5 ^ 30, 30) := by decide
+
+/-! ### Stated, not proved (S): within one ulp; overflow reported
+
+`real_within_one_ulp` and `overflow_reported` are the full-strength statements over every
+well-formed numeral of the grammar. They are **open**: closing them needs an error analysis of the
+truncated reciprocal multiplications (`negIter`) and of the 54-bit truncation before the final
+round-half-up; `bigint_steps_exact` and `tables_ok` reduce them to inequalities over `Nat`.
+The check searches them with the exact-`Rat` oracle (`Driver/StrToNum.lean`) on the C++ results.
+Out-of-range in the small direction (`0 < |x| < 2^-1074`) may be rejected instead of rounded. -/
+
+/-- the magnitude pattern (sign bit removed) of a result -/
+def magBits (r : Res) : Nat := r.bits % 2 ^ 63
+
+def real_within_one_ulp : Prop :=
+  ∀ (x : Numeral), x.wf = true → x.leadingZero = false → x.units.length < 2 ^ 32 →
+    ∀ r, strToNum x.units 0 x.units.length = some r → r.kind = .real → magBits r < infBits →
+      ulpDist (magBits r) (nearestMag x.magFrac.1 x.magFrac.2) ≤ 1
+
+def overflow_reported : Prop :=
+  ∀ (x : Numeral), x.wf = true → x.leadingZero = false → x.units.length < 2 ^ 32 →
+    exceedsMaxFinite x.magFrac.1 x.magFrac.2 = true →
+    ∀ r, strToNum x.units 0 x.units.length = some r →
+      r.kind = .notANumber ∨ (r.kind = .real ∧ (magBits r ≥ infBits ∨ magBits r = maxFiniteBits))
+
+/-- what is proved of them (`…_partial`): the sign half of the statement for every input
+(`sign_preserved`), exactness on the integer shapes (`int_exact_*`), and that a result whose
+exponent field would exceed 2046 is +infinity, never a wrapped finite pattern -/
+theorem overflow_reported_partial (b s : Nat) : posFinish b s < 2 ^ 63 ∧
+    (Qentem.Generated.StrToNum.bias + Nat.log2 b + s ≥ 0x7FF → Nat.log2 b ≤ 52 → posFinish b s = infBits) := by
+  refine ⟨posFinish_lt b s, fun h hb => ?_⟩
+  unfold posFinish
+  simp [hb, h, infBits]
+
+/-- instances of the open statements (kernel-evaluated tests, not proofs of them): `0.1`, `1e23`
+(1 ulp from correctly rounded), `1.7976931348623157e308`, `4e308` -/
+example : (strToNum [48,46,49] 0 3).map magBits = some (nearestMag 1 10) := by decide
+example : (strToNum [49,101,50,51] 0 4).map (fun r => ulpDist (magBits r) (nearestMag (10 ^ 23) 1)) = some 1 := by decide
+example : (strToNum [52,101,51,48,56] 0 5).map magBits = some infBits := by decide
 
 end Qentem.Props.C09
